@@ -31,10 +31,12 @@ Theorem C08_content_cannot_touch_lists : forall cfg fuel lm s self p sc s',
 Proof. intros cfg fuel lm s self p sc s' H. exact (sl_exec_ops cfg fuel lm s self p sc s' H). Qed.
 Print Assumptions C08_content_cannot_touch_lists.
 
-(* death is final: no HP change brings a dead unit back or puts it into limbo *)
-Theorem C08_dead_stays_dead : forall s u newr dmg src id, get_unit (units s) (uid u) = Some u ->
-  state_of s id = Some Dead -> state_of (hp_change s u newr dmg src) id = Some Dead.
-Proof. exact hp_change_dead_final. Qed.
+(* death is final: no content script, with any nesting of listeners (HPChange listeners included),
+   brings a dead unit back to life or puts it into limbo *)
+Theorem C08_dead_stays_dead : forall cfg fuel lm s self p sc s',
+  exec_ops cfg fuel lm s self p sc = Some s' ->
+  forall id, state_of s id = Some Dead -> state_of s' id = Some Dead.
+Proof. intros cfg fuel lm s self p sc s' H. exact (dead_is_final cfg fuel lm s self p sc s' H). Qed.
 Print Assumptions C08_dead_stays_dead.
 
 (* the dead do not act: an action starts only for a unit whose state is Alive *)
@@ -52,7 +54,7 @@ Print Assumptions C08_dead_inserts_dropped.
 (* non-vacuity and the trace predicate on a model run with a kill *)
 Theorem C08_nonvacuous :
   match start demo_cfg 200 with
-  | Stop s => death_ok (trace s) && killer_ok_from [] None (trace s) &&
+  | Stop s => death_ok (trace s) && killer_ok_from [] [] (trace s) &&
               existsb (fun e => match e with VTargetDeath _ _ => true | _ => false end) (trace s)
   | _ => false
   end = true.
